@@ -343,3 +343,17 @@ func vAlign64(b []byte) int {
 	a := uintptr(unsafe.Pointer(&b[0]))
 	return int((64 - a%64) % 64)
 }
+
+// vAsciiLower / vAsciiEqualFold: case-insensitivity as HTTP tokens and host names have it - the 26 ASCII letters only.
+// (strings.EqualFold and strings.ToLower apply Unicode folding: U+017F equals s, U+212A equals k.) For concrete strings.
+func vAsciiLower(s string) string {
+	b := []byte(s)
+	for i, c := range b {
+		if c >= 'A' && c <= 'Z' {
+			b[i] = c + 32
+		}
+	}
+	return string(b)
+}
+
+func vAsciiEqualFold(a, b string) bool { return vAsciiLower(a) == vAsciiLower(b) }
